@@ -280,9 +280,14 @@ class Gate:
             err_msg = "Exporting controlled gates is not implemented yet."
             raise NotImplementedError(err_msg)
         else:
+            # a gate that takes no parameter is applied without a parameter
+            # list, whatever arg_value it carries (its matrix ignores it)
+            q_args = self.arg_value
+            if not qasm_out.takes_parameters(qasm_gate):
+                q_args = None
             qasm_out.output(
                 qasm_out._qasm_str(
-                    qasm_gate, self.controls, self.targets, self.arg_value
+                    qasm_gate, self.controls, self.targets, q_args
                 )
             )
 
